@@ -48,9 +48,13 @@ CLAIMED = {
   "ref": "DESIGN.md 5-C02"},
 
  "C06": {
-  "text": "Gate-by-precondition over the real text of BlockFiltersProcess::execute and FilterProtocol::update_min_filtered_block_number: the filtered height advances and matched blocks are recorded only for a batch that starts exactly at min_filtered+1 and whose accepted prefix hashes, chained (H_i = filter_hash(H_{i-1}, f_i)) from the authentic hash of block start-1, to the authentic hash of block start+i for every i - where 'authentic' is produced only by the finalized check point / cached hashes / quorum vector getters, and the index arithmetic that attributes each expected hash to its block is proved (all four provenance branches). BlockFilterHashesProcess / BlockFilterCheckPointsProcess and LatestBlockFilterHashes / CheckPoints are proved total.",
-  "note": "Partial: block_hashes of the message (which block is downloaded for a matching filter) are NOT verified - named in evidence; the quorum behind 'agreed' hashes is C07 (not applicable). Found and fixed while proving: S1d, S1i, S1j, S1k.",
+  "text": "Gate-by-precondition over the real text of BlockFiltersProcess::execute and FilterProtocol::update_min_filtered_block_number: the filtered height advances and matched blocks are recorded only for a batch that starts exactly at min_filtered+1 and whose accepted prefix hashes, chained (H_i = filter_hash(H_{i-1}, f_i)) from the authentic hash of block start-1, to the authentic hash of block start+i for every i - where 'authentic' is produced only by the finalized check point / cached hashes / quorum vector getters, and the index arithmetic that attributes each expected hash to its block is proved (all four provenance branches). BlockFilterHashesProcess / BlockFilterCheckPointsProcess and LatestBlockFilterHashes / CheckPoints are proved total. The quorum search of Peers::get_latest_block_filter_hashes is under contract too (unit quorum): a non-empty answer is agreed on, position by position, by at least ceil(max_outbound_peers / 2) of the selected proven peers.",
+  "note": "Partial: block_hashes of the message (which block is downloaded for a matching filter) are NOT verified - named in evidence (known finding S6); the selection of the proven peers' vectors and the iterator pipelines of the quorum search are assumed helpers. Found and fixed while proving: S1d, S1i, S1j, S1k.",
   "ref": "DESIGN.md 5-C06"},
+ "C07": {
+  "text": "Partial: contract on the real text of the agreement search and the two storage writes of LightClientProtocol::finalize_check_points (the block after the cleaning step, lifted mechanically) and on Peers::required_peers_count, Storage::update_check_points, Storage::update_max_check_point_index: check points are written only with the evidence that at least ceil(max_outbound_peers / 2) of the peers that entered the search report the same value for every position from the last final check point up to the written one (position by position, proved by a loop invariant over the real branch structure: count_max >= required, retain the agreeing peers, stop at the first position without a quorum); exactly those values are written, at consecutive indices starting right after the last final one, and the final index moves forward by the number of values written.",
+  "note": "The iterator pipelines over HashMap<PeerIndex, (u32, Vec<Byte32>)> (sizes, counting fold, max, find_map, retain, into_values) are replaced by helpers with assumed std semantics. NOT decided: the cleaning step before the search (alignment of new peers to the last final check point, banning contradicting peers), the selection of the currently proven peers, CheckPoints::add_check_points continuity, completeness ('fewer deviating peers cannot block agreement'), and that storage keys below the final index are never written by anything else.",
+  "ref": "DESIGN.md 5-C07"},
  "C09": {
   "text": "Contracts on the real text of Storage::update_filter_scripts: for every store content and argument the committed batch is exactly the documented command (all: every stored script entry deleted, every given script stored with its start number; partial: the given scripts stored; delete: the given scripts removed); the filter progress is only written to values at or below the start numbers of the scripts named; the pending matched blocks are discarded only with the evidence that the filter progress stands at or below the block number of every script that remains registered (this gate fails on the code before fix S10). Plus the gate on update_block_number in BlockFiltersProcess::execute (a script's recorded height is raised only when no matched block is waiting).",
   "note": "Missing calls (e.g. a deleted clear_matched_blocks) cannot be detected by preconditions; the RPC wrapper set_scripts is not under contract.",
@@ -77,7 +81,6 @@ CLAIMED = {
 
 NOT_APPLICABLE = {
  "C05": "liveness/convergence over unbounded histories, random samples and delivery orders; no per-call postcondition form (the per-call fragment is proved under C14)",
- "C07": "the quorum/finalisation logic is a HashMap/closure pipeline outside the Verus subset and intractable for Kani on the real types; only supporting lemmas are provable and they do not decide the property",
  "C08": "quantifies over crash points between writes plus recovery; function contracts describe completed calls only",
 }
 
